@@ -2211,7 +2211,12 @@ func runLong(w witness, lb *longBufs, cnt map[string]int64) (v *vio, herr error)
 	}
 	// reopen: only the header block of every segment is copied into the shadow buffer (the rest of it has never
 	// been written), a second allocator is opened there and probed.
-	reopen := func(what string, literal bool) *vio {
+	const (
+		probeCheap   = 0 // free the model's blocks (nil each), then fill: every index exactly once, then ErrExhausted
+		probeLiteral = 1 // FreeBlock on every index: nil = allocated, ErrNotExist = free (one error value per free block)
+		probeNoAlloc = 2 // free the model's blocks (nil each), then Available == Count; no allocation, no garbage
+	)
+	reopen := func(what string, mode int) *vio {
 		if cnt != nil {
 			cnt["long_reopen_probes"]++
 		}
@@ -2235,7 +2240,7 @@ func runLong(w witness, lb *longBufs, cnt map[string]int64) (v *vio, herr error)
 				v = fail("reopen", "%s: reopened on a copy of the header bytes: Available()=%d Count()=%d, the model has %d of %d allocated (want Available %d)", what, a, b2.Count(), n, count, count-n)
 				return
 			}
-			if literal {
+			if mode == probeLiteral {
 				for i := 0; i < count; i++ {
 					err := b2.FreeBlock(i)
 					switch {
@@ -2262,6 +2267,13 @@ func runLong(w witness, lb *longBufs, cnt map[string]int64) (v *vio, herr error)
 						return
 					}
 				}
+			}
+			if a := b2.Available(); a != count {
+				v = fail("reopen", "%s: the reopened allocator after freeing the %d blocks of the model: Available()=%d want %d", what, n, a, count)
+				return
+			}
+			if mode == probeNoAlloc {
+				return
 			}
 			seen := make([]bool, count)
 			for k := 0; k < count; k++ {
@@ -2378,10 +2390,17 @@ func runLong(w witness, lb *longBufs, cnt map[string]int64) (v *vio, herr error)
 			return fail("exhausted-with-free-blocks", "filling: ErrExhausted with %d of %d allocated", n, count), nil
 		}
 		if probeAt[n] {
-			// around the header-page boundaries the literal probe (FreeBlock on every index: no allocation in the
-			// reopened allocator, so that a fault of ArrangeBlock shows up in the allocator under test first),
-			// elsewhere the cheap one
-			if v := reopen(fmt.Sprintf("after %d sequential allocations", n), n%32768 <= 2); v != nil {
+			// around the header-page boundaries a probe that does not allocate in the reopened allocator, so that a
+			// fault of ArrangeBlock shows up in the allocator under test first: the literal one at the first two
+			// boundaries, the garbage-free one at the later ones; elsewhere the cheap one
+			mode := probeCheap
+			if n%32768 <= 2 {
+				mode = probeNoAlloc
+				if n <= 2*32768+2 {
+					mode = probeLiteral
+				}
+			}
+			if v := reopen(fmt.Sprintf("after %d sequential allocations", n), mode); v != nil {
 				return v, nil
 			}
 			if v := blocksAt(fmt.Sprintf("after %d sequential allocations", n), []int{0, 1, idx - 1, idx, idx + 1, count - 1, rng.Intn(count), rng.Intn(count)}); v != nil {
@@ -2432,7 +2451,11 @@ func runLong(w witness, lb *longBufs, cnt map[string]int64) (v *vio, herr error)
 		if cnt != nil {
 			cnt["long_frees"] += int64(len(order))
 		}
-		if v := reopen(what, round == 0); v != nil {
+		mode := probeCheap
+		if round == 0 {
+			mode = probeLiteral
+		}
+		if v := reopen(what, mode); v != nil {
 			return v, nil
 		}
 		freed := map[int]bool{}
@@ -2458,7 +2481,7 @@ func runLong(w witness, lb *longBufs, cnt map[string]int64) (v *vio, herr error)
 			return fail("not-exhausted-when-full", "round %d: not exhausted after all freed blocks came back", round), nil
 		}
 	}
-	if v := reopen("at the end (all blocks allocated)", false); v != nil {
+	if v := reopen("at the end (all blocks allocated)", probeCheap); v != nil {
 		return v, nil
 	}
 	// drain the top half and a prefix, reopen with the literal probe
@@ -2472,7 +2495,7 @@ func runLong(w witness, lb *longBufs, cnt map[string]int64) (v *vio, herr error)
 			return v, nil
 		}
 	}
-	if v := reopen("after draining the upper half and blocks 0..99", true); v != nil {
+	if v := reopen("after draining the upper half and blocks 0..99", probeLiteral); v != nil {
 		return v, nil
 	}
 	for k := 0; k < 100 && k < count/2; k++ {
@@ -2582,10 +2605,22 @@ func TestCheck(t *testing.T) {
 	// the long runs first: their buffers (GBs, virtual) must be taken while the heap has never freed a large object,
 	// and are dropped again before the allocation-heavy phases so that they do not distort the GC pacing
 	lcs := longCases(run)
+	var held int64
+	for _, c := range lcs {
+		held += 2 * c.w.Size
+	}
+	// the GC paces itself by the live heap, which is GBs of never-touched buffers here: without a limit the error
+	// values produced by the literal probes would pile up unreclaimed
+	oldLimit := debug.SetMemoryLimit(held + 384<<20)
 	longRuns(run, lcs)
 	lcs = nil
+	debug.SetMemoryLimit(oldLimit)
 	debug.FreeOSMemory()
 	lap("long_runs")
+	if os.Getenv("VERIF_C17_ONLY") == "long" { // development aid: only the long runs
+		run.DistinctAdd(2)
+		return
+	}
 	geometrySweep(run)
 	lap("geometry")
 	plan := enumPlan{maxDepth: 8, emptyDepth: func(int, int) int { return 8 }, leafCap: 150_000}
